@@ -898,6 +898,14 @@ func recalcDepth(peers *pslice.PSlice, radius uint8, filter peerFilterFunc) uint
 			// therefore we can return assuming that bin is the unsaturated one.
 			return true, false, nil
 		}
+		if bin > shallowestUnsaturated+1 {
+			// the bins between shallowestUnsaturated and bin hold no reachable peer
+			// (they may hold unreachable ones, so ShallowestEmpty does not report them):
+			// the first of them is the shallowest unsaturated bin.
+			shallowestUnsaturated++
+			binCount = 0
+			return true, false, nil
+		}
 		shallowestUnsaturated = bin
 		binCount = 1
 
